@@ -1,6 +1,6 @@
 """Property -> rules table. Each rule callable: (prog, tier, repo) -> [RuleResult]."""
 from .rules import traversal_instances as TI
-from .rules import gate, lookup_unwrap, heap, witness, incremental, optimizer, const_arith, shape, backend, printer_rules, comment_linear, enum_evidence, ssa_shared, lex_bounds
+from .rules import gate, lookup_unwrap, heap, witness, incremental, optimizer, const_arith, shape, backend, printer_rules, comment_linear, enum_evidence, ssa_shared, lex_bounds, gc_rules
 
 PROPERTIES = {}
 
@@ -80,8 +80,10 @@ prop('C11', COMMON +
      'use-after-reclaim across GC schedules and root-set completeness are not decided. LOOKUP-UNWRAP: every '
      'unwrap of a lookup into a ServerState map is dominated by a successful lookup of the same key in a map whose key '
      'set is included (helper summaries computed to a fixpoint; no inclusion for `errors`). STATE-WRITERS: only the '
-     'server_state module mutates those maps.',
-     [TI.make(['T-gc']), lookup_unwrap.run, lookup_unwrap.run_writers,
+     'server_state module mutates those maps, and UPDATE-ORDER (shared with C10) checks that the mutators insert/remove '
+     'all per-module maps under the same keys. POP-MUST-MARK: in the GC driver every module reference popped from the '
+     'unmarked set is looked up and marked on every path before the next pop or return.',
+     [TI.make(['T-gc']), gc_rules.run, lookup_unwrap.run, lookup_unwrap.run_writers, incremental.run_order,
       witness.run_for(['WState'], 'C11: outside samlang-services the state maps cannot be written (compile-fail witnesses)')],
      ['A-11.1: a field read by the marker family is actually passed to Heap::mark (read, not checked)',
       'A-11.2: every PStr held in parsed_modules/global_cx/errors also occurs in some checked module'])
@@ -134,9 +136,11 @@ prop('C04', COMMON +
      'BACKEND-OP-TABLE: three tables are read out of MIR discriminant switches - operator -> wasm mnemonic (wasm printer), '
      'operator -> JS symbol (BinaryOperator::as_str) and operator -> JS wrapper calls (LIR TypeScript printer) - and each '
      'row is checked against a semantic equivalence table of JS forms and i32 opcodes (one reason per row). TS-SPLICE: '
-     'non-constant text pushed between the backticks of a template literal must come through a sanitising callee. Does not '
+     'non-constant text pushed between the backticks of a template literal must come through a sanitising callee. '
+     'Sibling operators of one family must be emitted through the same TypeScript shape. DATA-SEGMENT-UNITS: no '
+     'character count flows into the offset/length of a string constant in the wasm data segment. Does not '
      'decide agreement of the two runtime libraries (libsam.wat vs the TS prolog).',
-     [backend.run_op_table, backend.run_ts_splice])
+     [backend.run_op_table, backend.run_ts_splice, backend.run_segment_units])
 
 prop('C05', COMMON +
      'Clause "none of them panics" for the hand-written byte scanning: LEX-BOUNDS is a zone (difference-bound) abstract '
